@@ -1,5 +1,5 @@
 (* C10 - property theorems only. *)
-From V Require Import Lib.CborProofs C10.Gen C10.Model C10.Proofs.
+From V Require Import Lib.CborProofs Lib.CborMore C10.Gen C10.Model C10.Proofs.
 
 (* Receiver.  For every mini-protocol decoder `accepts`, every list of
    messages - each the encoding of a well-formed CBOR array [uint type, ...]
@@ -102,6 +102,45 @@ Proof.
     exact (parse_full_bad bad Hbad j more rest Hwj E2).
 Qed.
 Print Assumptions C10_error.
+
+(* ... and the error IS reported: once the segments received so far contain
+   the whole bad position (wherever the cuts fall, also when it arrives split
+   over many segments), the receiver is no longer Running - by
+   Lib.CborMore.parse_full_bad_stable a buffer that starts with the bad bytes
+   can neither be waited on nor parsed.  Applied to the prefix of the segment
+   list that ends with the segment completing `bad`, this is "reported as soon
+   as it is complete". *)
+Theorem C10_error_reported : forall accepts cap items bad more segs,
+  Forall wf items -> parse_full bad = Bad -> all_bytes (concat segs) ->
+  concat segs = concat (map enc items) ++ bad ++ more ->
+  status (recv accepts cap segs) <> Running.
+Proof.
+  intros accepts cap items bad more segs Hw Hbad Hb E Hrun.
+  destruct (C10_delivered_sound accepts cap segs Hb) as (pre & post & E1 & I1 & I2 & I3).
+  set (st := recv accepts cap segs) in *.
+  destruct (I3 Hrun) as [-> W]. rewrite app_nil_r in E1.
+  assert (exists js, Forall wf js /\ map snd (delivered st) = map enc js) as (js & Hj & Ej).
+  { clear - I1. induction I1 as [|m l (i & Hwi & Em & _) _ (js & Hj & Ej)]; [exists []; split; [constructor|reflexivity]|].
+    exists (i :: js). split; [constructor; assumption|]. cbn. rewrite Em, Ej. reflexivity. }
+  rewrite Ej in I2. rewrite E1, <- I2 in E.
+  destruct (enc_concat_prefix js items _ _ Hj Hw E) as [(k & ->)|(j & js' & -> & rest & E2)].
+  - (* delivered = the first k messages: the buffer holds the rest of the stream *)
+    assert (R : rbuf st = concat (map enc (skipn k items)) ++ bad ++ more).
+    { rewrite <- (firstn_skipn k items) in E at 2. rewrite map_app, concat_app, <- app_assoc in E.
+      apply app_inv_head in E. exact E. }
+    destruct (skipn k items) as [|i r] eqn:Sk.
+    + cbn in R. destruct W as [W|W].
+      * rewrite W in R. destruct bad; [vm_compute in Hbad; discriminate|discriminate].
+      * rewrite R, (parse_full_bad_stable bad Hbad more) in W. discriminate.
+    + assert (Hwi : wf i).
+      { assert (F : Forall wf (skipn k items)) by (apply Forall_skipn'; exact Hw). rewrite Sk in F. inversion F; assumption. }
+      cbn [map concat] in R. rewrite <- app_assoc in R. destruct W as [W|W].
+      * rewrite W in R. symmetry in R. apply app_eq_nil in R. destruct R as [R _]. destruct (enc_ne i R).
+      * rewrite R, parse_full_enc in W by exact Hwi. discriminate.
+  - apply Forall_app in Hj. destruct Hj as [_ Hj]. inversion Hj as [|? ? Hwj _]; subst.
+    exact (parse_full_bad bad Hbad j more rest Hwj E2).
+Qed.
+Print Assumptions C10_error_reported.
 
 Theorem C10_error_now : forall accepts cap fuel buf acc, parse_full buf = Bad ->
   drain accepts cap (S fuel) buf acc = mkR acc buf Failed.
